@@ -163,6 +163,16 @@ func (p *packageParse) completePack(msg *Message) (*Message, bool) {
 			p.remove(id)
 			completeMsg := newTerminalMessage(msg.JTMessage, data)
 			completeMsg.Body = data
+			// 合并后的报文持有自己的JTMessage和固定头 不过滤分包时write协程回复最后一个分包会改它的固定头
+			// 而合并后的报文这时候还在reader协程的回调里
+			jtMsg := *msg.JTMessage
+			completeHeader := *msg.JTMessage.Header
+			if completeHeader.Property != nil {
+				property := *completeHeader.Property
+				completeHeader.Property = &property
+			}
+			jtMsg.Header = &completeHeader
+			completeMsg.JTMessage = &jtMsg
 			completeMsg.ExtensionFields.SubcontractComplete = true
 			return completeMsg, true
 		}
